@@ -152,7 +152,13 @@ CMR_ERROR CMRlisthashtableRemove(
 static inline
 long long projectSignedHash(long long value)
 {
-  return ((value + RANGE_SIGNED_HASH - 1) % (2*RANGE_SIGNED_HASH-1)) - (RANGE_SIGNED_HASH-1);
+  long long remainder = (value + RANGE_SIGNED_HASH - 1) % (2*RANGE_SIGNED_HASH-1);
+
+  /* The C remainder has the sign of the dividend; without the correction, equal residues get different
+   * representatives depending on the order in which a hash value was accumulated. */
+  if (remainder < 0)
+    remainder += 2*RANGE_SIGNED_HASH-1;
+  return remainder - (RANGE_SIGNED_HASH-1);
 }
 
 #ifdef __cplusplus
